@@ -455,22 +455,57 @@ def columnSpans (v : Variant) : Column → Except Err (List Nat)
   | .fixed xs => .ok (getSpansForField (fixedNe v) xs)
   | .indexed i vs => getSpansForIndexStringField v i vs
 
-/-- `Session.get_spans(fields=(f0, f1, …))` for Field arguments: only `fields[0]` and `fields[1]` are looked at
-    (finding NC08d); one entry raises IndexError. -/
+/-- the loop `for f in fields[1:]: result = _get_spans_for_2_fields_by_spans(result, f.get_spans())` of
+    `Session.get_spans(fields=…)` (after fix NC08d): the next column's span array is merged into the running one -/
+def foldColumnSpans (v : Variant) : List Nat → List Column → Except Err (List Nat)
+  | acc, [] => .ok acc
+  | acc, c :: cs =>
+    match columnSpans v c with
+    | .ok s =>
+      match getSpansFor2FieldsBySpans acc s with
+      | .ok m => foldColumnSpans v m cs
+      | .error e => .error e
+    | .error e => .error e
+
+/-- `Session.get_spans(fields=(f0, f1, …))` for Field arguments. As found only `fields[0]` and `fields[1]` were looked at
+    and one entry raised IndexError (finding NC08d); repaired: the span arrays of all fields are merged, left to right. -/
 def sessionGetSpansFields (v : Variant) : List Column → Except Err (List Nat)
   | [] => .error (.valueError "One of 'field' and 'fields' must be set")
-  | [_] => .error (.oob "fields[1]")
-  | c0 :: c1 :: _ =>
-    match columnSpans v c0, columnSpans v c1 with
-    | .ok s0, .ok s1 => getSpansFor2FieldsBySpans s0 s1
-    | .error e, _ => .error e
-    | _, .error e => .error e
+  | c0 :: rest =>
+    match v with
+    | .asFound =>
+      match rest with
+      | [] => .error (.oob "fields[1]")
+      | c1 :: _ =>
+        match columnSpans v c0, columnSpans v c1 with
+        | .ok s0, .ok s1 => getSpansFor2FieldsBySpans s0 s1
+        | .error e, _ => .error e
+        | _, .error e => .error e
+    | .repaired =>
+      match columnSpans v c0 with
+      | .ok s0 => foldColumnSpans v s0 rest
+      | .error e => .error e
 
-/-- `Session.get_spans(fields=(a0, a1, …))` for ndarray arguments (numeric or rank-coded fixed strings) -/
+/-- the same loop over ndarray arguments: `get_spans_for_field(a)` of each further array is merged in -/
+def foldArraySpans : List Nat → List (List Int) → Except Err (List Nat)
+  | acc, [] => .ok acc
+  | acc, a :: as =>
+    match getSpansFor2FieldsBySpans acc (getSpansForField (fun x y => x != y) a) with
+    | .ok m => foldArraySpans m as
+    | .error e => .error e
+
+/-- `Session.get_spans(fields=(a0, a1, …))` for ndarray arguments (numeric or rank-coded fixed strings): exactly two arrays
+    go through the two-array kernel; as found any other number behaved like NC08d, repaired they are folded -/
 def sessionGetSpansArrays (v : Variant) : List (List Int) → Except Err (List Nat)
   | [] => .error (.valueError "One of 'field' and 'fields' must be set")
-  | [_] => .error (.oob "fields[1]")
-  | a0 :: a1 :: _ => getSpansFor2Fields v a0 a1
+  | [a0, a1] => getSpansFor2Fields v a0 a1
+  | a0 :: rest =>
+    match v with
+    | .asFound =>
+      match rest with
+      | [] => .error (.oob "fields[1]")
+      | a1 :: _ => getSpansFor2Fields v a0 a1
+    | .repaired => foldArraySpans (getSpansForField (fun x y => x != y) a0) rest
 
 /-- `Session._apply_spans_src`: `if len(target) != spans[-1]: raise ValueError` before the kernel runs -/
 def sessionApplySpansSrc (kernel : List Nat → List Int → Except Err (List Int)) (spans : List Nat) (target : List Int) :
